@@ -50,6 +50,9 @@ pub fn tag_of_spec(spec: &str) -> Option<Tag> {
         all_tags().into_iter().find(|t| tag_ident(t) == id)
     } else if let Some(h) = spec.strip_prefix("o:") {
         unhex_str(h).map(|s| Tag::Other(s.into()))
+    } else if let Some(h) = spec.strip_prefix("p:") {
+        // the way an application gets a tag from a name it was given: the checked, case-insensitive conversion
+        unhex_str(h).and_then(|s| Tag::try_from(&*s).ok())
     } else {
         None
     }
